@@ -25,9 +25,14 @@ type ExecPlan struct {
 	L2At        int     // fail the k-th SQL statement of the execution (0: none)
 	L2Kind      L2Fault // with this fault
 	CountSQL    bool    // count SQL statements at the L2 seam
+	Late        bool    // overtaken storage calls may complete late (stragglers)
+	StartAfter  []int   // request i starts once this many storage calls have been released (default 0)
 }
 
 func NoFaults() ExecPlan { return ExecPlan{CancelAfter: -1, MaxSteps: 20000} }
+
+// WithStragglers: overtaken storage calls may complete late (tape-chosen).
+func WithStragglers() ExecPlan { p := NoFaults(); p.Late = true; return p }
 
 type CheckOut struct {
 	Membership string `json:"membership"`
@@ -64,6 +69,7 @@ type ExecResult struct {
 	ParkedSets    int
 	Ties          int
 	Zombies       int
+	Late          int
 	FaultsFired   map[string]int
 	OpCount       map[string]int
 	CancelledAt   int  // number of released calls when the cancel was delivered (-1: none)
@@ -105,6 +111,7 @@ func (e *Env) Exec(tape *Tape, reqs []*Request, plan ExecPlan) *ExecResult {
 		s.FaultAt[k] = v
 	}
 	s.CancelAfter = plan.CancelAfter
+	s.LateCompletions = plan.Late
 	if plan.MaxSteps == 0 {
 		plan.MaxSteps = 20000
 	}
@@ -121,6 +128,7 @@ func (e *Env) Exec(tape *Tape, reqs []*Request, plan ExecPlan) *ExecResult {
 		synctest.Test(t, func(t *testing.T) {
 			var doneN atomic.Int64
 			start := time.Now()
+			launch := make([]func(), len(reqs))
 			for i, rq := range reqs {
 				ctx, cancel := context.WithCancel(withReq(context.Background(), i))
 				s.Cancels = append(s.Cancels, cancel)
@@ -131,7 +139,7 @@ func (e *Env) Exec(tape *Tape, reqs []*Request, plan ExecPlan) *ExecResult {
 					s.Trace = append(s.Trace, "CANCEL")
 				}
 				rq := rq
-				go func() {
+				launch[i] = func() {
 					switch rq.Kind {
 					case "check":
 						rq.result = outOf(e.Deps.ce.CheckRelationTuple(ctx, rq.Tuple, rq.Depth))
@@ -169,9 +177,36 @@ func (e *Env) Exec(tape *Tape, reqs []*Request, plan ExecPlan) *ExecResult {
 						rq.result = o
 					}
 					doneN.Add(1)
-				}()
+				}
 			}
-			done := func() bool { return int(doneN.Load()) == len(reqs) }
+			started := make([]bool, len(reqs))
+			startDue := func() {
+				for i := range reqs {
+					after := 0
+					if i < len(plan.StartAfter) {
+						after = plan.StartAfter[i]
+					}
+					if !started[i] && s.Released >= after {
+						started[i] = true
+						go launch[i]()
+					}
+				}
+			}
+			s.OnQuantum = startDue
+			startDue()
+			done := func() bool {
+				for i := range started {
+					if !started[i] {
+						// nothing left to release before this request's start: start it now
+						if s.NumParked() == 0 {
+							started[i] = true
+							go launch[i]()
+						}
+						return false
+					}
+				}
+				return int(doneN.Load()) == len(reqs)
+			}
 			if plan.L2At > 0 {
 				theHub.Arm(plan.L2At, plan.L2Kind)
 				defer func() {
@@ -224,6 +259,7 @@ func (e *Env) Exec(tape *Tape, reqs []*Request, plan ExecPlan) *ExecResult {
 	res.ParkedSets = len(s.ParkedSets)
 	res.Ties = s.Ties
 	res.Zombies = s.Zombies
+	res.Late = s.Late
 	res.FaultsFired = s.FaultsFired
 	res.OpCount = s.OpCount
 	return res
